@@ -27,7 +27,8 @@ PARAM = {"hugeParam": "sizeThreshold", "rangeValCopy": "sizeThreshold", "rangeEx
          "nestingReduce": "bodyWidth", "ifElseChain": "minThreshold", "commentedOutCode": "minLength"}
 TAGOF = {"hugeParam": "performance", "rangeValCopy": "performance", "rangeExprCopy": "performance", "tooManyResultsChecker": "style",
          "nestingReduce": "style", "ifElseChain": "style", "commentedOutCode": "diagnostic"}
-BOOLS = [("captLocal", "paramsOnly"), ("elseif", "skipBalanced"), ("underef", "skipRecvDeref"), ("unnamedResult", "checkExported"), ("truncateCmp", "skipArchDependent")]
+BOOLS = [("captLocal", "paramsOnly"), ("elseif", "skipBalanced"), ("underef", "skipRecvDeref"), ("unnamedResult", "checkExported"), ("truncateCmp", "skipArchDependent"),
+         ("rangeValCopy", "skipTestFuncs"), ("rangeExprCopy", "skipTestFuncs")]
 LINE = re.compile(r"^(.*?\.go):(\d+):(\d+): (\w+): (.*)$")
 
 
@@ -153,7 +154,7 @@ def run(ctx):
         "states": st, "transitions": tr, "traces_validated_against_impl": evaluated + runs,
         "override_checks": evaluated, "binary_runs": runs, "sizes_compared": sizes, "design": design, "exhaustive": False,
         "samples": [{"checker": "hugeParam", "m": 3, "n": 3, "reported": table["hugeParam"][(3, 3)]}, {"checker": "tooManyResultsChecker", "m": 3, "n": 3, "reported": table["tooManyResultsChecker"][(3, 3)]}],
-        "uncovered": ["rangeValCopy.skipTestFuncs", "rangeExprCopy.skipTestFuncs", "ruleguard.* (C18)"],
+        "uncovered": ["ruleguard.* (C18)"],
     }
     return ctx.finish("model_checking", cov, ["ifElseChain / commentedOutCode: the wording does not fix the boundary, only monotone single-step behaviour is required",
                                               "unnamedResult.checkExported: only 'takes effect' is required (observation: false checks all functions, true only exported ones)"])
